@@ -127,8 +127,11 @@ func mkCheck(col *ev.Collector) func(Case) error {
 			col.Class(c.Dialect + "/generated-name-twin/" + tw.Op)
 			tws = append(tws, tw.Index+":"+tw.Op)
 		}
-		if len(c.Edits) > 0 || c.Perm != 0 || len(c.Twins) > 0 || c.Short != 0 {
-			col.NonTrivial(fmt.Sprintf("%s|%s|%s|%v|%s|%d", c.Dialect, c.Level, strings.Join(ks, ","), c.Perm != 0, strings.Join(tws, ","), c.Short))
+		if len(c.Edits) > 0 || c.Perm != 0 || len(c.Twins) > 0 || c.Short != 0 || c.TwoSchemas > 1 {
+			col.NonTrivial(fmt.Sprintf("%s|%s|%s|%v|%s|%d|%s|%d", c.Dialect, c.Level, strings.Join(ks, ","), c.Perm != 0, strings.Join(tws, ","), c.Short, c.Flavour, c.TwoSchemas))
+			if c.Flavour != "" {
+				col.Class("mysql/flavour=" + c.Flavour)
+			}
 		}
 		sk := fmt.Sprintf("%s/%d-edits", c.Dialect, min(len(c.Edits), 3))
 		if len(c.Twins) > 0 {
@@ -149,6 +152,32 @@ func TestCheck(t *testing.T) {
 		base := Base(d)
 		sites := AllSites(d, base)
 		nsites += len(sites)
+		if d == "mysql" {
+			// the differ of a driver opened against each server flavour / version: null relations and every single edit.
+			// Servers without CHECK constraints (5.7, TiDB) refuse a schema that has some: they get the base without checks.
+			for _, fl := range []string{"mysql8", "maria", "mysql57", "tidb"} {
+				fbase := base
+				if fl == "mysql57" || fl == "tidb" {
+					fbase = base.Clone()
+					for i := range fbase.Tables {
+						fbase.Tables[i].Checks = nil
+					}
+				}
+				for _, perm := range []int64{0, 1} {
+					if !ev.Each(col, "flavours-single-edit", Case{Dialect: d, Base: fbase, Level: "schema", Perm: perm, Flavour: fl}, check, known) {
+						return
+					}
+				}
+				for _, s := range AllSites(d, fbase) {
+					if (fl == "mysql57" || fl == "tidb") && strings.Contains(s.E.Kind, "check") {
+						continue // refused by contract on these servers
+					}
+					if !ev.Each(col, "flavours-single-edit", Case{Dialect: d, Base: fbase, Level: "schema", Edits: []EditRef{s.E}, Flavour: fl}, check, known) {
+						return
+					}
+				}
+			}
+		}
 		if d != "sqlite" {
 			// a second schema with a table of the same name: a foreign key re-pointed from one to the other
 			for two := 1; two <= 3; two++ {
